@@ -118,6 +118,21 @@ def gen_facts(sig, rng):
 def run(chk: Check, tier: str):
     rng = random.Random(chk.seed)
     infer.verify_theorems(chk, ["ModelsExist", "ZModel"], tier, rng)
+    # the layer loop as a state machine: with push/pop it computes Part(B) for every base of the universe; a forgotten pop does not
+    import tlc
+    from common import machinery_failure
+
+    for disc, want_violation in (("pushpop", False), ("nopop", True)):
+        res = tlc.run("MC_TolLoop", tlc.cfg_text(invariants=["LoopRefinesPart"], constants={"Discipline": disc, "NW": 4, "MaxB": 2}), f"C06_tol_{disc}", timeout=1800)
+        if want_violation:
+            if res.violated != "LoopRefinesPart":
+                machinery_failure("MC_TolLoop: the no-pop variant does not violate LoopRefinesPart (vacuous)")
+            chk.cov["wrong_variant_detected"] = "TolLoop without pop violates LoopRefinesPart"
+        else:
+            if res.violated:
+                machinery_failure(f"MC_TolLoop: {res.violated} violated by the specification itself")
+            tlc.require_ok(res, "MC_TolLoop")
+            chk.add_tlc("MC_TolLoop", res, "layer loop = Part(B) for every base of <=2 conditionals over 2 atoms, both modes")
     # ---- path G: every base of <=2 conditionals over 2 atoms, both modes, both variants
     # quick: every base of <= 2 conditionals; thorough: every base of <= 3 conditionals (91 881 more), partitions only
     rows = infer.gen_vectors(chk, maxb=(2 if tier == "quick" else 3), with_c=False, with_ans=False)
